@@ -28,6 +28,7 @@ type fnSpec struct {
 	State   []string // ... and the paths it may also WRITE: parameters after Fields, and returned (as a tuple, before the results)
 	Props   []string // properties whose theorems use the model counterpart
 	NoProof bool     // printed (and usable by the self-test) but no equivalence proof has been written yet
+	Assume  []string // callees reached through a method value that may be taken as a parameter when untranslated (funcs_sighash.go)
 }
 
 // The functions translated, in the order they are printed.
@@ -170,6 +171,7 @@ func fnRun(repo string) *fnResult {
 	head := sb.String() // the records of the structs that were used (funcs_tx.go) go between the header and the functions
 	sb.Reset()
 	fnStructs, fnStructsUsed = map[string]*types.Named{}, map[string]bool{}
+	fnMethReset()
 	res := &fnResult{status: map[string]fnStatus{}}
 	for _, sp := range fnList {
 		st := fnStatus{ProofFile: "proofs/GenFuncs_" + sp.Coq + ".v", ExportFile: "Properties/Gen_" + sp.Coq + ".v", Properties: sp.Props, Go: sp.File}
@@ -235,6 +237,7 @@ func fnTranslate(ld *fnLoader, sp fnSpec) (def, where, reason string) {
 	t := &fnTr{pkg: pkg, spec: sp, vars: map[interface{}]*fnVar{}, names: map[string]int{}, objs: map[types.Object]string{},
 		ld: ld, dead: map[int]bool{}, rootIdx: map[string]int{}, errNil: map[interface{}]bool{}}
 	def = t.function(fd)
+	def = t.methComment() + def
 	if len(t.erased) > 0 {
 		def = "(* erased, being no-ops for the stack value: the debugger / state-handler callbacks " + strings.Join(fnSortedKeys(t.erased), ", ") + " *)\n" + def
 	}
